@@ -68,11 +68,11 @@ InWindow(from, until, t) ==
 
 WfBadCommon == {"badjson", "nosuffix", "nosigneddata", "reveal_mh", "reveal_long", "badjws",
                 "extrahdr", "algnone", "algdisallowed", "noalg", "nokey", "badkey", "crv",
-                "nonce", "payloadjson"}
+                "nonce", "payloadjson", "rsakey"}
 WfBad(type) ==
     CASE type = "create"     -> {"badjson", "nosuffixdata", "rc_mh", "dh_mh", "rc_long"}
       [] type = "update"     -> WfBadCommon \cup {"dh_mh"}
-      [] type = "recover"    -> WfBadCommon \cup {"dh_mh", "rc_mh", "reuse"}
+      [] type = "recover"    -> WfBadCommon \cup {"dh_mh", "rc_mh", "reuse", "reuse_other_alg"}
       [] type = "deactivate" -> WfBadCommon
       [] OTHER               -> {}
 
